@@ -651,3 +651,49 @@ def d16_spilled_pointer_row_step(db, rep, rule="D16-SPILLED-POINTER-ROW-STEP"):
               "program that runs out of general registers is compiled instead of emulated and every row after the first is wrong" % mem_arm[0].line,
               line=row[0].line)
     return 1
+
+
+def accumulator_walks_complete(db, rep, rule):
+    """An accumulator's register is zeroed before the loops (init_accumulator) and reduced and stored after them
+    (reduce_accumulator); the back ends find the accumulators by walking the variable table.  Every counted loop whose body
+    picks out accumulators - it compares a variable's vartype with ORC_VAR_TYPE_ACCUMULATOR, or calls an *accumulator* hook - must
+    cover all four accumulator slots (ORC_VAR_A1 .. ORC_VAR_A4 inclusive): a walk that stops one short never zeroes (or never
+    stores) the fourth accumulator, whose value then starts from whatever the register held before the call."""
+    from loops import counted
+    a1, a4 = db.enum("ORC_VAR_A1"), db.enum("ORC_VAR_A4")
+    accty = db.enum("ORC_VAR_TYPE_ACCUMULATOR")
+    n = 0
+    for f in db.all_functions():
+        if not f.relfile.startswith("orc/") or f.body is None or "emulate" in f.name:
+            continue
+        for lp in [x for x in f.walk() if x.k == "ForStmt"]:
+            cl = counted(lp)
+            if not cl or cl["first"][0] is not None or cl["last"][0] is not None or cl["first"][1] is None or cl["last"][1] is None:
+                continue
+            body = lp.c[3] if len(lp.c) > 3 else None
+            if body is None:
+                continue
+            picks = any(y.k == "BinaryOperator" and y.op in ("==", "!=") and "vartype" in unparse(y) and strip_casts(y.c[1]) is not None and strip_casts(y.c[1]).v == accty
+                        for y in body.walk()) or \
+                any(y.k == "CallExpr" and "accumulator" in (y.name or unparse(y.c[0]) if y.c else "") for y in body.walk()) or \
+                any(y.k == "MemberExpr" and "accumulator" in (y.name or "") and y.parent is not None and y.parent.k in ("CallExpr", "ImplicitCastExpr") for y in body.walk())
+            if not picks:
+                continue
+            iv = cl["var"]
+            # the loop variable indexes the variable table itself (vars[i] / vars + i) - not an operand slot (dest_args[k])
+            indexes_table = any((y.k == "ArraySubscriptExpr" and (access_path(y.c[0]) or "").endswith("vars") and strip_casts(y.c[1]) is not None and
+                                 strip_casts(y.c[1]).k == "DeclRefExpr" and strip_casts(y.c[1]).name == iv) or
+                                (y.k == "BinaryOperator" and y.op == "+" and (access_path(y.c[0]) or "").endswith("vars") and strip_casts(y.c[1]) is not None and
+                                 strip_casts(y.c[1]).k == "DeclRefExpr" and strip_casts(y.c[1]).name == iv) for y in body.walk())
+            if not indexes_table:
+                continue
+            lo, hi = (cl["first"][1], cl["last"][1]) if cl["dir"] == "asc" else (cl["last"][1], cl["first"][1])
+            ok = lo <= a1 and hi >= a4
+            n += 1
+            rep.saw(f)
+            rep.check(ok, rule, where(f), "%s:%s@%s" % (f.name, cl["var"], lp.line), "a walk that picks out accumulators covers ORC_VAR_A1 .. ORC_VAR_A4",
+                      "%s walks variables %d..%d and picks out the accumulators among them, but the accumulator slots are %d..%d: the last one is never "
+                      "initialised / stored by this walk - its result starts from what the register held before the call" % (f.name, lo, hi, a1, a4), line=lp.line)
+    if n < 2:
+        raise AnalysisBroken("only %d accumulator walks found" % n)
+    return n
